@@ -91,6 +91,8 @@ impl Property for C09 {
         if tape.len() < HEADER_CELLS || tape[0] % 3 != 0 { return vec![]; }
         // glue-mode pilots are judged fault-free only (the glue documents best effort under WAL faults)
         if rep.sample.as_ref().map(|s| s["glue"].as_bool().unwrap_or(false)).unwrap_or(false) { return vec![]; }
+        // pilots whose entries exceed 1 MiB are not expanded either (every placement would recover megabytes per crash image)
+        if rep.sample.as_ref().map(|s| s["big_entries"].as_bool().unwrap_or(false)).unwrap_or(false) { return vec![]; }
         let mut out = Vec::new();
         let kinds_for = |k: &str| -> Vec<u64> {
             match k { "append" => vec![0, 1, 2, 3, 5, 7, 8], "sync" => vec![4], "create" => vec![6], _ => vec![] }
@@ -136,6 +138,9 @@ impl Property for C09 {
         if nf >= 2 { plan.insert(f2.0, kind_of(f2.1)); }
         // ---- swarm configuration
         let pad = *src.pick(&[0usize, 0, 40, 300]);
+        // now and then every entry is larger than 1 MiB (a size cap in one of writer/reader only)
+        let pad = if src.chance(1, 300) { 1_100_000 } else { pad };
+        if pad > 1_000_000 { rep.probe("entries_over_1mib"); }
         let entry_size = {
             let e = redis_sim::streaming::WalEntry::from_delta(&make_delta(10, 10, pad), 10).unwrap();
             e.disk_size()
@@ -342,7 +347,7 @@ impl Property for C09 {
         rep.sample = Some(json!({
             "writers": plans.iter().map(|p| p.iter().map(|(id, ts)| format!("w{}@{}", id, ts)).collect::<Vec<_>>()).collect::<Vec<_>>(),
             "max_file_size": max_file_size, "group_commit_max_entries": gmax, "group_commit_max_wait_us": gwait,
-            "glue": glue,
+            "glue": glue, "big_entries": pad > 1_000_000,
             "faults_planned": plan.iter().map(|(c, f)| format!("call{}:{}", c, f.name())).collect::<Vec<_>>(),
             "faults_fired": fired.iter().map(|(c, f)| format!("call{}:{}", c, f.name())).collect::<Vec<_>>(),
             "io_calls": io_calls,
